@@ -133,7 +133,7 @@ def run_one(ctl: explorer.Ctl, cfg: Dict[str, Any]) -> Dict[str, Any]:
     viol: List[dict] = []
     if status != "ok":
         obs["outcome"] = status
-        obs["violations"] = [{"sig": {"class": "did-not-finish", "status": status}, "msg": f"cfg={cfg}: {status} {val!r}"}]
+        obs["violations"] = [{"sig": {"class": "did-not-finish", "status": status}, "msg": f"cfg={cfg}: {status} {core.clean_repr(val)}"}]
         return obs
 
     def bad(cls, msg, **extra):
@@ -289,7 +289,7 @@ def run_stdio(ctl: explorer.Ctl, cfg: Dict[str, Any]) -> Dict[str, Any]:
     viol: List[dict] = []
     if status != "ok":
         return {"outcome": status, "violations": [{"sig": {"class": "did-not-finish", "carrier": "stdio"},
-                                                   "msg": f"cfg={cfg}: {status} {val!r}"}]}
+                                                   "msg": f"cfg={cfg}: {status} {core.clean_repr(val)}"}]}
 
     def bad(cls, msg, **extra):
         viol.append({"sig": {"class": cls, "carrier": "stdio", **extra}, "msg": f"cfg={cfg} delivered={delivered}: {msg}"})
